@@ -147,10 +147,10 @@ PROPS['C01'] = dict(
     domains=['rt', 'unm', 'build'],
     no_model={'rt': True},
     n=dict(quick=dict(rt=2500, unm=800, build=600), thorough=dict(rt=120000, unm=40000, build=30000)),
-    theorems=[('Properties.C01', ['C01_header_section_round_trips', 'C01_block_framing_ignores_block_content', 'C01_marker_is_accepted_and_consumed', 'C01_marshal_layout', 'C01_marshal_then_parse_returns_the_record', 'C01_strictly_built_header_is_accepted_under_every_policy', 'C01_strictly_built_record_round_trips_without_digests'])],
+    theorems=[('Properties.C01', ['C01_header_section_round_trips', 'C01_block_framing_ignores_block_content', 'C01_marker_is_accepted_and_consumed', 'C01_marshal_layout', 'C01_marshal_then_parse_returns_the_record', 'C01_strictly_built_header_is_accepted_under_every_policy', 'C01_strictly_built_record_round_trips_without_digests', 'C01_strictly_built_record_round_trips', 'C01_base16_meets_the_codec_contract'])],
     kinds={'panic', 'roundtrip-lossy', 'remarshal-differs', 'policy-incoherent', 'trimmed-value'},
     rule='rt: 1-5 records accepted by the strict builder (all record types incl. unknown, both versions, generic/HTTP/warc-fields blocks with delimiter-imitating content, unknown fields with odd but clean values), built under a random policy, marshaled, concatenated plain or as gzip members, read back through ONE WarcFileReader under another policy (2/3 strict) with the same add/repair flags, compared (version, type, ordered fields, block) and marshaled again; spill thresholds around the block size; unm/build: model correspondence. distinct = distinct implementation observations',
-    level_text='PARTIAL proof. Proved in Coq (C01_marshal_then_parse_returns_the_record): for every record that is valid for the reader (version 1.0/1.1, well-formed header fields that validate with no finding, truthful Content-Length, block that parses to itself, digests absent or valid), every following byte sequence and stream tail, under every policy setting, parsing the marshalled form returns exactly that record (version, type, ordered fields, block), no finding, and leaves exactly the following bytes - so blocks imitating CRLFCRLF or WARC/1.1 cannot confuse framing. Stage theorems: header section round trip for unbounded field lists, framing, marker, layout. Builder side of the link, header stage (C01_strictly_built_header_is_accepted_under_every_policy): the final header of every record the strict builder returns - the length and digest fields it added included - is accepted with no finding by header validation under every pair of spec / unknown-type policies and resolves to the same known record type (the attempt to state this showed that a record type given only as a WARC-Type header was not adopted by Build: defect repaired, fix 71854e8). End to end for records without digest fields (C01_strictly_built_record_round_trips_without_digests): with the add-missing-digest option off on both sides, whatever the strict builder returns for clean header fields and ANY content is read back from its serialization as exactly that record - version, type, ordered fields, block - with no error and no finding under EVERY reader policy, followed by anything (side condition on the one remaining axis: the builder rejects block problems or the reader ignores them); the warc-fields case rests on: a header section accepted under fail parses to the same fields under every policy. Not mechanised: the digest stage when digest fields are present (it needs the text codecs of the hash oracles to round-trip; established on the model level in C02/C03 and evaluated here), re-marshalling equality, and the gzip container; these are evaluated on the implementation by the executable statement (build, marshal plain or gzip, parse under another policy, compare, marshal again).',
+    level_text='Proved in Coq end to end. Reader side (C01_marshal_then_parse_returns_the_record): for every record that is valid for the reader (version 1.0/1.1, well-formed header fields that validate with no finding, truthful Content-Length, block that parses to itself, digests absent or valid), every following byte sequence and stream tail, under every policy setting, parsing the marshalled form returns exactly that record (version, type, ordered fields, block), no finding, and leaves exactly the following bytes - so blocks imitating CRLFCRLF or WARC/1.1 cannot confuse framing. Builder side (C01_strictly_built_record_round_trips): whatever the strict builder returns - clean header fields, ANY content, length and digest fields left to its add-missing options - is such a valid record for EVERY reader policy, hence is read back from its serialization as exactly that record with no error and no finding. The theorem states what it needs from the digest text codec as a contract (the text written for a digest is read back by newDigest, under any default encoding of the reader, as a digest whose declared hash validates against the same bytes, and is a clean header value); the contract is proved for base16 and every supported algorithm for any hash function returning alg_size bytes (C01_base16_meets_the_codec_contract); without digest fields no contract is needed (C01_..._without_digests). Two hypotheses the proof forced: the record type given to the builder is 0 or the one its WARC-Type field names (a defect found this way: Build did not adopt a type given only as header field; repaired, fix 71854e8), and the block policy is the one axis with a side condition (the builder rejects block problems or the reader ignores them; reading choice, DESIGN 0.6). PARTIAL in: the codec contract for base32/base64 (their decoders are oracles), and the gzip container; re-marshalling equality follows in the model from record equality and is evaluated on the implementation. All of these are evaluated by the executable statement (build, marshal plain or gzip, parse under another policy, compare, marshal again)',
     level_note="Trusted: Coq kernel, extraction (ExtrOcamlBasic), harness and generators. Oracles: hash functions (Python hashlib), base32/base64 decoders, mime.WordDecoder, net/http header parsing, whatwg-url, net.ParseIP, time.Parse, Unicode case mapping; klauspost gzip (a member is its payload; a cut member yields a payload prefix then io.ErrUnexpectedEOF). bufio.Reader is remaining bytes + a persistent tail condition. Findings are compared by coarse kind derived from error texts. Reading of the text: the reader runs with the builder's add-missing/repair flags; values with edge blanks are a recorded known finding (trimmed), values with encoded-words are outside the property.",
     assumptions=[],
 )
